@@ -167,6 +167,31 @@ def run(ctx, rep):
             rep.ok("R13.4", "%s lock field is private" % adt.split("::")[-1], fs[0]["vis"], nontrivial=False)
         if a.get("pub") and adt.endswith("FileLock"):
             rep.violation("R13.4", "FileLock-public", adt, "FileLock is exported")
+    # R13.5: flock excludes on an inode, owners meet through the path: the path -> inode binding of the lock file must be stable
+    rep.rule("R13.5", "the lock file is never unlinked, renamed or recreated by the lock's own code (constructor / Drop): flock is per "
+                      "inode while owners find each other through the path, so removing the path lets two owners lock different inodes")
+    UNLINK = r"fs::(remove_file|remove_dir|remove_dir_all|rename|hard_link|copy)$"
+    n_lock_bodies = 0
+    for b in ctx.facts.doc["bodies"]:
+        if "file_lock::FileLock" in (b.get("impl_self") or "") or b["key"] == L or b["key"].startswith(L + "::"):
+            n_lock_bodies += 1
+            for bi, blk in enumerate(b["blocks"]):
+                t = blk["term"]
+                if blk["cleanup"] or t["k"] != "call":
+                    continue
+                if cmatch(t, UNLINK):
+                    rep.violation("R13.5", "%s|%s-of-lock-path" % (short_key(b["key"]), cpath(t).split("::")[-1]), cpath(t),
+                                  "the lock's own code removes/renames a file: once the LOCK path is unlinked on release, a waiter that "
+                                  "already opened the old inode and a newcomer that creates a fresh LOCK file both obtain the exclusive lock",
+                                  where="%s:%d" % (rel(t["file"]), t["line"]))
+                if cmatch(t, r"fs::OpenOptions::create_new$") and t["args"] and t["args"][-1].get("int") == "1":
+                    rep.violation("R13.5", "%s|lock-file-create_new" % short_key(b["key"]), cpath(t),
+                                  "the lock file is opened with create_new: a stale LOCK file makes every later open fail",
+                                  where="%s:%d" % (rel(t["file"]), t["line"]))
+    rep.floor("R13.5", "bodies of the lock type examined", n_lock_bodies, 3)
+    rep.ok("R13.5", "lock code never unlinks/renames", "%d bodies of FileLock examined" % n_lock_bodies, nontrivial=True) \
+        if not any(o["rule"] == "R13.5" and o["status"] == "violation" for o in rep.obs) else None
+
     # no Clone for FileLock, no try_clone, unlock only in Drop
     for im in ctx.facts.impls:
         if im["self_ty"].endswith("file_lock::FileLock") and im.get("trait", "").endswith("clone::Clone"):
